@@ -78,7 +78,9 @@ REQUIRED_THEOREMS = ["queue_abs_invariant", "insert_commutes", "pop_commutes", "
                      "w_send_refused_nothing_queued", "w_refused_send_leaves_no_trace",
                      "w_run_with_refused_send_is_m_without_it", "w_single_outcome_refused", "w_attempts_on_schedule_refused",
                      "ack_request_code_is_bad_ack", "m_solo_ack_request_code", "notify_wait_le_every_deadline",
-                     "obs_wait_le_every_deadline_partial", "obs_io_wait_le_every_deadline_partial"]
+                     "obs_wait_le_every_deadline_partial", "obs_io_wait_le_every_deadline_partial",
+                     "obs_wait_le_every_deadline", "obs_io_wait_le_every_deadline", "obs_io_wait_le_every_deadline_sorted",
+                     "obs_io_nothing_due", "obs_queue_sorted_nothing_due", "obs_queue_sorted_step"]
 RULE = ("scenario lines for harness/msg.c (one real client context, 1-3 UDP sessions sharing the send queue, virtual clock, "
         "scripted peer): every drop subset of the first 10 datagrams of an exchange (5 transmissions x 5 ACKs) for several "
         "parameter sets and ACK delays placed just before / at / after each timer deadline; random multi-message, "
